@@ -284,6 +284,23 @@ func checkC13(c C13Case, o *h.Obs) *h.Fail {
 			return h.Failf("append", "Append(%q, %q, %d) of %v = %q, Text gives %q", prefix, textVerb, fprec, xv, h.FirstN(app, 300), h.FirstN(got, 300))
 		}
 	}
+	// ... and whatever room the buffer has left: exactly enough, one byte more or less, and the sizes an implementation
+	// that writes digits into the spare capacity first would compute from the mantissa length (19 bytes per word)
+	if (len(c.X.D)+c.Prec)%4 == 0 || textVerb == "p" || textVerb == "b" {
+		words := (len(c.X.D) + 18) / 19
+		for _, pre := range []string{"", "-", "x"} {
+			for _, spare := range []int{len(got) - 1, len(got), len(got) + 1, len(got) + 2, 19 * words, 19*words + 1, 19*words + 2, 19*words + 3, 19*words + 4, 19*(words+1) + 1} {
+				if spare < 0 {
+					continue
+				}
+				buf := make([]byte, len(pre), len(pre)+spare)
+				copy(buf, pre)
+				if app := string(x.Append(buf, textVerb[0], fprec)); app != pre+got {
+					return h.Failf("append-capacity", "Append(%q with %d spare bytes, %q, %d) of %v = %q, Text gives %q", pre, spare, textVerb, fprec, xv, h.FirstN(app, 300), h.FirstN(got, 300))
+				}
+			}
+		}
+	}
 	if got != want {
 		return h.Failf("text", "Text(%q, %d) of %v (mode %v, prec %d) = %q, reference %q", textVerb, fprec, xv, mode, c.X.P, h.FirstN(got, 300), h.FirstN(want, 300))
 	}
@@ -335,7 +352,7 @@ func checkC13(c C13Case, o *h.Obs) *h.Fail {
 	return nil
 }
 
-const ruleC13 = "rapid-generated (value, verb/format, precision -1..40 or near the value's digit count / leading-digit position, flags from {+, space, 0, -}, width 0..40). Append onto prefixes that look like parts of a number ('v1.0: ', '-0.5e+07 ', '9.', 'Inf') must equal prefix + Text. Two oracles. (f64) the value is the exact decimal expansion (<= 767 digits) of a float64 (uniform bits, subnormals, extremes, decimal-looking values n/10^k, dyadic fractions, +-0, +-Inf), mode ToNearestEven: Text(c,p) == strconv.FormatFloat(f,c,p,64) for p >= 0 and fmt.Sprintf(spec, x) == fmt.Sprintf(spec, f). (ref) any Decimal incl. dirty zeros/infinities and 1-12 digit values with tie/all-nines patterns at exponents -45..25 (a quarter of them held in zero-padded mantissas of 3..40 words), under its own rounding mode: Text == reference formatter (round once with the reference rounding at the requested position, which may lie at or above the leading digit, then strconv's e/f/g layout rules; p and b per the Text documentation), and Format == fmt's sign/width/flag rules applied to that body (the emulation is itself cross-checked against fmt on every f64 case). In one case in eight with a width the width is chosen from the formatted length so that the padding is exactly 31..33, 63..65, 127..129, 255..257, 384, 512, 1000, 1024, 2048, 4095..4097, 8191..8193, 8200, 16384, 65537 or 300000 bytes. '-' together with '0' is checked like every other combination ('-' wins, as in fmt). One case in forty gives Text/Append a format byte outside e E f g G p b (with precisions from MinInt32 to 400, buffers of capacity 0, 1, 2 and 64): the answer must be strconv.FormatFloat's for an unknown byte. Excluded by construction and counted: '+'/' ' with %v in the fmt differential (fmt's plusV), 'f' with |exp| > 5000. Non-trivial = the value has more digits than requested, or the rounding position is at/above the leading digit, or flags/width are non-default."
+const ruleC13 = "rapid-generated (value, verb/format, precision -1..40 or near the value's digit count / leading-digit position, flags from {+, space, 0, -}, width 0..40). Append onto prefixes that look like parts of a number ('v1.0: ', '-0.5e+07 ', '9.', 'Inf') must equal prefix + Text, also into buffers whose spare capacity is the output length -1..+2 or 19 bytes per mantissa word +0..+4. Two oracles. (f64) the value is the exact decimal expansion (<= 767 digits) of a float64 (uniform bits, subnormals, extremes, decimal-looking values n/10^k, dyadic fractions, +-0, +-Inf), mode ToNearestEven: Text(c,p) == strconv.FormatFloat(f,c,p,64) for p >= 0 and fmt.Sprintf(spec, x) == fmt.Sprintf(spec, f). (ref) any Decimal incl. dirty zeros/infinities and 1-12 digit values with tie/all-nines patterns at exponents -45..25 (a quarter of them held in zero-padded mantissas of 3..40 words), under its own rounding mode: Text == reference formatter (round once with the reference rounding at the requested position, which may lie at or above the leading digit, then strconv's e/f/g layout rules; p and b per the Text documentation), and Format == fmt's sign/width/flag rules applied to that body (the emulation is itself cross-checked against fmt on every f64 case). In one case in eight with a width the width is chosen from the formatted length so that the padding is exactly 31..33, 63..65, 127..129, 255..257, 384, 512, 1000, 1024, 2048, 4095..4097, 8191..8193, 8200, 16384, 65537 or 300000 bytes. '-' together with '0' is checked like every other combination ('-' wins, as in fmt). One case in forty gives Text/Append a format byte outside e E f g G p b (with precisions from MinInt32 to 400, buffers of capacity 0, 1, 2 and 64): the answer must be strconv.FormatFloat's for an unknown byte. Excluded by construction and counted: '+'/' ' with %v in the fmt differential (fmt's plusV), 'f' with |exp| > 5000. Non-trivial = the value has more digits than requested, or the rounding position is at/above the leading digit, or flags/width are non-default."
 
 // carryPastMaxExp: rounding x at the requested position carries into a power of
 // ten whose exponent is MaxExp+1, which the temporary Decimal used by Append
